@@ -34,7 +34,9 @@ def render(desc):
     out = ['version: "3"', ""]
     for item in desc.get("order") or ([("enum", i) for i in range(len(desc.get("enums", [])))] +
                                       [("struct", i) for i in range(len(desc.get("structs", [])))] +
-                                      [("impl", i) for i in range(len(desc.get("impls", [])))]):
+                                      [("impl", i) for i in range(len(desc.get("impls", [])))] +
+                                      [("service", i) for i in range(len(desc.get("services", [])))] +
+                                      [("device", i) for i in range(len(desc.get("devices", [])))]):
         kind, i = item
         if kind == "enum":
             e = desc["enums"][i]
@@ -67,6 +69,18 @@ def render(desc):
                 for k, v in sb["fields"]:
                     out.append(f"        {k}: {val_text(v)},")
                 out.append("    },")
+            out.append("}\n")
+        elif kind == "service":
+            sv = desc["services"][i]
+            out.append(f"service {sv['name']} @{sv['id']} {{")
+            for m in sv["methods"]:
+                out.append(f"    method {m['name']}({m['input']}) @{m['id']} returns {m['output']},")
+            out.append("}\n")
+        elif kind == "device":
+            d = desc["devices"][i]
+            out.append(f"device {d['name']} {{")
+            for k, v in d["fields"]:
+                out.append(f"    {k}: {val_text(v)},")
             out.append("}\n")
     return "\n".join(out)
 
@@ -230,4 +244,32 @@ def add_can_impls(rng, desc, p=0.75, buses=None, with_period=False):
         if rng.random() < 0.1:
             sigs.append({"name": "nosuchfield", "fields": [("endianess", "big")]})
         desc["impls"].append({"protocol": "can", "type": s["name"], "name": s["name"], "fields": fields, "signals": sigs})
+    return desc
+
+
+def add_units_ranges(rng, desc):
+    for s in desc["structs"]:
+        for f in s["fields"]:
+            p = {}
+            if rng.random() < 0.3:
+                p["unit"] = rng.choice(["V", "A", "rpm", "deg C", "m/s"])
+            if rng.random() < 0.25:
+                lo = rng.choice([0.0, -1.5, 10.0, -100.25])
+                p["range"] = (lo, lo + rng.choice([1.0, 2.5, 1000.0]))
+            f["params"] = p
+    return desc
+
+
+def add_services(rng, desc):
+    desc["services"] = []
+    names = [s["name"] for s in desc["structs"]]
+    for i in range(rng.randint(0, 2)):
+        ms = [{"name": f"m{j}", "id": j, "input": rng.choice(names), "output": rng.choice(names)} for j in range(rng.randint(1, 3))]
+        desc["services"].append({"name": f"Sv{i}", "id": i, "methods": ms})
+    desc["devices"] = []
+    for i in range(rng.randint(0, 2)):
+        fs = [("id", i)]
+        if desc["services"] and rng.random() < 0.6:
+            fs.append(("services", [("ident", sv["name"]) for sv in desc["services"][: rng.randint(1, len(desc["services"]))]]))
+        desc["devices"].append({"name": f"dev{i}", "fields": fs})
     return desc
